@@ -39,7 +39,9 @@ def _cfg_for(name):
                     if tier != "quick" and slow and n == 3 and b == 3 and mode != "none":
                         continue
                     out.append(dict(strat=name, n=n, mode=mode, b=b))
-        if name in ("RandomSampling", "UncertaintySampling[margin_sampling]", "GreedySamplingX", "QueryByCommittee[KL_divergence]"):
+        # (GreedySamplingX with two features runs under C01 only: its utility obligations over sums of squares take z3's
+        #  nonlinear solver minutes per path)
+        if name in ("RandomSampling", "UncertaintySampling[margin_sampling]", "QueryByCommittee[KL_divergence]"):
             # two features: feature-row candidates are then a matrix whose size differs from its length
             out.append(dict(strat=name, n=3, mode="rows", b=4, feats=2))
         if name in ("RandomSampling", "CoreSet", "GreedySamplingX", "TypiClust"):
